@@ -271,6 +271,7 @@ impl<T> Chan<T> {
                     return Err(TryRecvError::Empty);
                 }
                 slot.deadline.store(now + period, Ordering::SeqCst);
+                crate::obs::emit_tick(d);
                 Ok((self.mk_tick.expect("tick maker"))(d))
             }
             Flavor::Zero => {
